@@ -102,25 +102,43 @@ def case_text(nodes, rep, req, valid):
 
 
 class Snapshots:
-    """Context snapshot at the entry of every node (harness-side wrapper; /repo untouched)."""
+    """Context snapshot at the entry of every node and the keys every node actually wrote / deleted
+    (harness-side wrappers around _PayloadProcessor.process and ContextType.set_value/delete_value; /repo untouched)."""
 
     def __enter__(self):
         from semantiva.pipeline.nodes.nodes import _PipelineNode
         from semantiva.pipeline.payload_processors import _PayloadProcessor
-        self.snaps = []
+        from semantiva.context_processors.context_types import ContextType
+        self.snaps, self.writes, self.deletes = [], [], []
         self._orig = _PayloadProcessor.process
-        snaps, orig = self.snaps, self._orig
+        self._set, self._del = ContextType.set_value, ContextType.delete_value
+        snaps, orig, writes, deletes = self.snaps, self._orig, self.writes, self.deletes
+        oset, odel = self._set, self._del
 
         def process(node, payload=None):
             if isinstance(node, _PipelineNode) and payload is not None:
                 snaps.append(dict(payload.context.to_dict()))
+                writes.append([])
+                deletes.append([])
             return orig(node, payload)
+
+        def set_value(ctx, key, value):
+            if writes:
+                writes[-1].append(key)
+            return oset(ctx, key, value)
+
+        def delete_value(ctx, key):
+            if deletes:
+                deletes[-1].append(key)
+            return odel(ctx, key)
         _PayloadProcessor.process = process
-        self._cls = _PayloadProcessor
+        ContextType.set_value, ContextType.delete_value = set_value, delete_value
+        self._cls, self._ctx = _PayloadProcessor, ContextType
         return self
 
     def __exit__(self, *a):
         self._cls.process = self._orig
+        self._ctx.set_value, self._ctx.delete_value = self._set, self._del
 
 
 def first_data_type(nodes):
@@ -226,10 +244,18 @@ def dynamic_oracles(ck, nodes, rep, req, insp, rng, counters):
                         why = "channel"
                     ck.fail_input("C02:reported-origin-differs-from-run:%s" % why,
                                   "node %d parameter %s: inspection says %s, the value actually comes from %s" % (i + 1, name, reported, actual), replay3)
+            wrote = set(sn.writes[i]) if i < len(sn.writes) else set()
+            # a key the node is said to create is written by it (also when the key already exists: the later reader's
+            # reported origin "context produced by node i" depends on it)
+            not_written = sorted(k for k in d["created"] if k not in d["suppressed"] and k not in wrote)
+            if not_written:
+                kind = n["k"] + (":" + n["elem"] if "elem" in n else "")
+                ck.fail_input("C02:reported-keys-differ-from-run:created-key-not-written:%s" % kind,
+                              "node %d reports created=%s but never wrote %s (already present: %s)" %
+                              (i + 1, d["created"], not_written, sorted(k for k in not_written if k in before)),
+                              dict(replay, node=i + 1, reported_created=d["created"], written=sorted(wrote)))
             for k in after:
-                if k not in before or (before[k] is not after[k] and _differs(before[k], after[k])):
-                    writer[k] = i + 1
-                elif k in d["created"]:
+                if k in wrote or k not in before or (before[k] is not after[k] and _differs(before[k], after[k])):
                     writer[k] = i + 1
             for k in list(writer):
                 if k not in after:
